@@ -617,6 +617,12 @@ pub fn gen_c10(rng: &mut Rng, d: &mut Dist, idx: u64) -> Vec<String> {
         bump(d, "fetch-responses");
         return gen_c02(rng, d, idx);
     }
+    // metadata responses in sequence: what the client reports after a partial reload is what the brokers sent, for every
+    // topic - also after brokers left, joined or moved between two responses
+    if idx % 6 == 5 {
+        bump(d, "metadata-response-sequences");
+        return gen_c06(rng, d, idx);
+    }
     let maxp = *rng.pick(&[1u64, 3, 5]);
     let mut cl = Cluster::random_wild(rng, maxp, true);
     // −1 as a node id would read as "no leader": avoid it (documented protocol meaning)
